@@ -133,9 +133,10 @@ theorem write_sim_noalloc {σ : Type} (A : Cursor.Allocator σ) (s : σ) (f : Fi
       ((absFile d.fs d.img f).write A s buf).1 = .ok k ∧ ((absFile d.fs d.img f).write A s buf).2.2 = s ∧
       CoreEq (absFile d'.fs d'.img f') ((absFile d.fs d.img f).write A s buf).2.1 ∧
       FileRep d'.fs d'.img f' ∧ tabView d'.fs d'.img = tabView d.fs d.img ∧ d'.fs.fsInfo = d.fs.fsInfo ∧
-      (∀ q, 0x42 ≤ q → d'.img.getByte q ≠ d.img.getByte q → ∃ cur, (absFile d.fs d.img f).readCluster = some cur ∧
-        clusterOff d.fs cur + f.offset % d.fs.clusterSize ≤ q ∧
-        q < clusterOff d.fs cur + f.offset % d.fs.clusterSize + k) := by
+      (∀ q, d'.img.getByte q ≠ d.img.getByte q → q = statusOff d.fs ∨
+        ∃ cur, (absFile d.fs d.img f).readCluster = some cur ∧
+          clusterOff d.fs cur + f.offset % d.fs.clusterSize ≤ q ∧
+          q < clusterOff d.fs cur + f.offset % d.fs.clusterSize + k) := by
   obtain ⟨sz, hsz⟩ := hrep.file
   have hinv := hrep.inv
   have hasz : (absFile d.fs d.img f).size = sz := by simp [absFile, hsz]
@@ -152,7 +153,7 @@ theorem write_sim_noalloc {σ : Type} (A : Cursor.Allocator σ) (s : σ) (f : Fi
       (4294967295 - f.offset) = 0 then _ else _) d = _ ∧ _
   by_cases hw0 : min (min buf.length (d.fs.clusterSize - f.offset % d.fs.clusterSize)) (4294967295 - f.offset) = 0
   · rw [if_pos hw0, if_pos hw0]
-    exact ⟨0, f, d, rfl, DevStep.refl d, rfl, rfl, CoreEq.refl _, hrep, rfl, rfl, fun q _ h => absurd rfl h⟩
+    exact ⟨0, f, d, rfl, DevStep.refl d, rfl, rfl, CoreEq.refl _, hrep, rfl, rfl, fun q h => absurd rfl h⟩
   · rw [if_neg hw0, if_neg hw0]
     generalize hww : min (min buf.length (d.fs.clusterSize - f.offset % d.fs.clusterSize)) (4294967295 - f.offset) = w
       at hw0
@@ -322,14 +323,17 @@ theorem write_sim_noalloc {σ : Type} (A : Cursor.Allocator σ) (s : σ) (f : Fi
       · intro c hc; rw [hfs', hs1.geom.totalClusters]; exact hrep.inTab c (hch' ▸ hc)
       · intro c hc; rw [htv']; exact hrep.last_eoc c (hch' ▸ hc)
     refine ⟨w, f', d', rfl, hstep, rfl, trivial, hcore, hrep', htv', by rw [hfs', hinfo1], ?_⟩
-    intro q hq hne
-    refine ⟨cur, hrc, ?_⟩
-    by_cases hin : clusterOff d.fs cur + f.offset % d.fs.clusterSize ≤ q ∧
-        q < clusterOff d.fs cur + f.offset % d.fs.clusterSize + w
-    · exact hin
-    · exfalso
-      apply hne
-      rw [hbyte q, if_neg hin]
-      exact hb1 hwf q hq
+    intro q hne
+    by_cases hsq : q = statusOff d.fs
+    · exact Or.inl hsq
+    · refine Or.inr ⟨cur, hrc, ?_⟩
+      by_cases hin : clusterOff d.fs cur + f.offset % d.fs.clusterSize ≤ q ∧
+          q < clusterOff d.fs cur + f.offset % d.fs.clusterSize + w
+      · exact hin
+      · exfalso
+        apply hne
+        rw [hbyte q, if_neg hin]
+        exact setDirtyFlag_only_status d d1 hr1 hfa (by
+          have := hg.status_lt; have := hg.fat_dev; omega) hwf q hsq
 
 end FatVerif.FileSim
